@@ -109,7 +109,8 @@ def echo_issues(info, out):
         if inf["kind"] == "bin":
             if inf["op"] in ("lock", "unlock"):
                 want = 1 if inf["op"] == "lock" else 2
-                if r.get("ctype") != want or r.get("lockkey") != inf["keyhex"] or (inf["lidhex"] and r.get("lockid") != inf["lidhex"]):
+                plain = (inf["flag"] & ~0x20) == 0     # show-when-locked / unlock-first replies name the HOLDER's lock id by design
+                if r.get("ctype") != want or r.get("lockkey") != inf["keyhex"] or (plain and inf["lidhex"] and r.get("lockid") != inf["lidhex"]):
                     res.append({"i": i, "c": inf["c"], "pos": inf["pos"], "op": inf["op"], "why": "binary reply names another command", "reply": r})
         else:
             f = text_fields(r)
@@ -117,7 +118,7 @@ def echo_issues(info, out):
                 if f is None:
                     if not (isinstance(r, dict) and "e" in r):
                         res.append({"i": i, "c": inf["c"], "pos": inf["pos"], "op": inf["op"], "why": "LOCK/UNLOCK answered with something that is not a lock result", "reply": r})
-                elif inf["lidhex"] and f.get("LOCK_ID") != inf["lidhex"]:
+                elif inf["lidhex"] and (inf["flag"] & ~0x20) == 0 and f.get("LOCK_ID") != inf["lidhex"]:
                     res.append({"i": i, "c": inf["c"], "pos": inf["pos"], "op": inf["op"], "why": "lock result carries another command's LOCK_ID",
                                 "want": inf["lidhex"], "got": f.get("LOCK_ID"), "reply": r})
             elif inf["op"] in ("push", "set", "ping", "echo", "del", "incr", "get"):
